@@ -882,7 +882,7 @@ func checkC05Composite(c *lib.Ctx) {
 				}
 			}()
 			for i := range todo {
-				if time.Now().After(deadline) {
+				if time.Now().After(deadline) || c.Stop("c05/composite") {
 					continue
 				}
 				if env == nil {
